@@ -5,6 +5,7 @@ package main
 import (
 	"fmt"
 	"go/types"
+	"runtime/debug"
 
 	"golang.org/x/tools/go/ssa"
 )
@@ -71,7 +72,12 @@ func (in *Interp) threadMain(t *Thread, body func()) {
 					// uncaught panic in a goroutine crashes the process
 					in.pendingPanic = &goroutineCrash{gp}
 				} else {
-					in.pendingPanic = r
+					switch r.(type) {
+					case *EngineAbort, pathEnd, *deadlockErr:
+						in.pendingPanic = r
+					default:
+						in.pendingPanic = fmt.Errorf("%v\n%s", r, debug.Stack())
+					}
 				}
 				in.cur = in.threads[0]
 				in.threads[0].wake <- struct{}{}
@@ -102,6 +108,36 @@ func (in *Interp) pickRunnable(self *Thread) *Thread {
 		}
 	}
 	return nil
+}
+
+// yield lets the next runnable thread (round-robin after the current one) run; the current thread
+// stays runnable.
+func (in *Interp) yield() {
+	self := in.cur
+	n := len(in.threads)
+	if n <= 1 {
+		return
+	}
+	var next *Thread
+	for k := 1; k < n; k++ {
+		t := in.threads[(self.id+k)%n]
+		if t == self || t.done {
+			continue
+		}
+		if !t.blocked || (t.cond != nil && t.cond()) {
+			next = t
+			break
+		}
+	}
+	if next == nil {
+		return
+	}
+	self.blocked = true
+	self.blockedOn = "yield"
+	self.cond = func() bool { return true }
+	in.switchTo(self, next)
+	self.blocked = false
+	self.cond = nil
 }
 
 // switchTo hands the baton to t and waits until this thread is woken again.
@@ -211,7 +247,22 @@ func (in *Interp) chanMut(c *ChanObj) {
 	in.onUndo(func() { *c = old })
 }
 
+// pickAlt forks until one alternative of a guarded union is selected.
+func (in *Interp) pickAlt(v Value) Value {
+	u, ok := v.(*Union)
+	if !ok {
+		return v
+	}
+	for i, a := range u.alts {
+		if i == len(u.alts)-1 || in.decide(a.g) {
+			return a.v
+		}
+	}
+	return u.alts[len(u.alts)-1].v
+}
+
 func (in *Interp) asChan(v Value) *ChanObj {
+	v = in.pickAlt(v)
 	c, ok := v.(*ChanObj)
 	if !ok {
 		abortf("channel operation on %s at %s", in.show(v), in.where())
@@ -411,6 +462,9 @@ func (in *Interp) selectOp(f *Frame, ins *ssa.Select) Value {
 		}
 		return r
 	}
+	// a select is a preemption point: a loop spinning on an always-ready case (closed channel) must
+	// not starve the goroutines it is waiting for
+	in.yield()
 	r := ready()
 	if len(r) == 0 {
 		if !ins.Blocking {
@@ -432,6 +486,17 @@ func (in *Interp) selectOp(f *Frame, ins *ssa.Select) Value {
 		r = ready()
 	}
 	pick := r[0]
+	if len(r) > 1 {
+		// fair canonical choice: rotate among the ready cases per select site (first-ready would starve
+		// cases behind a closed channel, which a real scheduler never does)
+		if in.selCount == nil {
+			in.selCount = map[*ssa.Select]int{}
+		}
+		k := in.selCount[ins]
+		in.selCount[ins] = k + 1
+		in.onUndo(func() { in.selCount[ins] = k })
+		pick = r[k%len(r)]
+	}
 	if len(r) > 1 && in.schedBudget > 0 {
 		in.schedBudget--
 		in.onUndo(func() { in.schedBudget++ })
